@@ -41,7 +41,11 @@ var hostileValues = [][]byte{[]byte("x"), []byte(""), []byte("a\"b"), []byte("ba
 // TestExhaustiveKinds: every kind; all slots present; all absent; each single
 // slot absent; each single slot present; every pair present; for kinds with
 // up to 10 slots every subset.
-func TestExhaustiveKinds(t *testing.T) {
+func TestExhaustiveKinds(t *testing.T) { enumerateKinds(t, "") }
+
+// enumerateKinds runs the synthetic-node enumeration; with only != "" just the case with that
+// description is evaluated (replay of a recorded case, on any shard).
+func enumerateKinds(t *testing.T, only string) {
 	if err := astx.SelfTest(); err != nil {
 		t.Fatal(err)
 	}
@@ -51,7 +55,7 @@ func TestExhaustiveKinds(t *testing.T) {
 	total := 0
 	allSmall := true
 	for ki, s := range astx.Kinds() {
-		if !harness.MyShare(ki) {
+		if only == "" && !harness.MyShare(ki) {
 			continue
 		}
 		slots := synth.SlotFields(s, astx.FToken, astx.FTokenList, astx.FChild, astx.FChildList, astx.FValue)
@@ -87,12 +91,18 @@ func TestExhaustiveKinds(t *testing.T) {
 			n := synth.Build(s, mk, present, listLen, hostileValues[mi%len(hostileValues)])
 			total++
 			d := synth.Describe(s, present, listLen)
+			if only != "" && d != only {
+				continue
+			}
 			harness.NonTrivial([]byte(d), d)
 			if m := checkTree(n); m != "" {
 				harness.Failf(t, "exhaustive-kinds", []byte(d), map[string]string{"node": d}, "%s: %s", d, m)
 				return
 			}
 		}
+	}
+	if only != "" {
+		return
 	}
 	harness.ClassN("synthetic-nodes", total)
 	_ = allSmall
@@ -183,7 +193,9 @@ func TestReplay(t *testing.T) {
 		t.Fatal(err)
 	}
 	if vi.Meta["node"] != "" {
-		t.Skip("synthetic node cases are re-enumerated by TestExhaustiveKinds: " + vi.Meta["node"])
+		harness.Eval()
+		enumerateKinds(t, vi.Meta["node"]) // the recorded synthetic node only (drawn subsets: the enumerated node of the same description, if any)
+		return
 	}
 	for _, v := range px.AllVersions {
 		if vi.Meta["version"] != "" && vi.Meta["version"] != v.String() {
